@@ -102,7 +102,7 @@ Proof.
   { destruct (acq s) as [|x l] eqn:E; [reflexivity|]. exfalso.
     assert (X : In x (acq s)) by (rewrite E; left; reflexivity).
     apply (i_acq _ _ I) in X. unfold pc_of in X. specialize (Dead x).
-    destruct (pcs (tasks s x)) as [| | | | |[|]| |]; simpl in *; discriminate. }
+    destruct (pcs (tasks s x)) as [| | | | |[|]| | |]; simpl in *; discriminate. }
   assert (M : memN t (ids s) = false).
   { destruct (memN t (ids s)) eqn:E; [|reflexivity]. apply memN_In in E. contradiction. }
   assert (Av : connect_must_wait (avail g s) = false).
